@@ -150,6 +150,7 @@ package corebgp
 //@   ensures [length_octet] len(b) >= 10 && b[9] != len(b) - 10 ==> isOutNotifErr(err, 2, 0) && len(notifOf(err).Data) == 0
 //@   ensures [fixed_fields] err == nil ==> len(b) >= 10 && b[9] == len(b) - 10 && o.version == b[0] && o.asn == be16(b, 1) && o.holdTime == be16(b, 3) && o.bgpID == be32(b, 5)
 //@   ensures [params_tile]  err == nil ==> len(o.optionalParams) >= 1 && capChain(b[10:], poffs, len(o.optionalParams), len(b) - 10) && (forall k :: 0 <= k && k < len(o.optionalParams) ==> capOK(b[10:], poffs[k]) && b[10 + poffs[k]] == 2 && isType(o.optionalParams[k], *capabilityOptionalParam) && asType(o.optionalParams[k], *capabilityOptionalParam) != nil)
+//@   ensures [params_typed] err == nil ==> (forall k :: 0 <= k && k < len(o.optionalParams) ==> isType(o.optionalParams[k], *capabilityOptionalParam) && asType(o.optionalParams[k], *capabilityOptionalParam) != nil)
 //@   ensures [error_is_notification] err != nil ==> isType(err, *notificationError) && asType(err, *notificationError) != nil && asType(err, *notificationError).out && notifOf(err) != nil && (notifOf(err).Code == 1 || notifOf(err).Code == 2)
 //@   ensures [error_data_short] err != nil ==> len(notifOf(err).Data) <= 9
 //@   ensures [no_partial_params] err != nil ==> o.optionalParams == old(o.optionalParams)
@@ -162,7 +163,10 @@ package corebgp
 //@   ensures [update_is_fresh_copy] messageType == 2 ==> err == nil && isType(m, updateMessage) && eqBytes(asType(m, updateMessage), b) && (len(b) > 0 ==> fresh(asType(m, updateMessage).arr))
 //@   ensures [keepalive] messageType == 4 ==> err == nil && isType(m, *keepAliveMessage) && asType(m, *keepAliveMessage) != nil
 //@   ensures [notification] messageType == 3 ==> (err == nil) == (len(b) >= 2) && (err == nil ==> isType(m, *Notification) && asType(m, *Notification) != nil && asType(m, *Notification).Code == b[0] && asType(m, *Notification).Subcode == b[1] && len(asType(m, *Notification).Data) == len(b) - 2 && (forall i :: 0 <= i && i < len(b) - 2 ==> asType(m, *Notification).Data[i] == b[2+i])) && (err != nil ==> !hasType(err, *notificationError))
-//@   ensures [open] messageType == 1 ==> (err == nil ==> isType(m, *openMessage) && asType(m, *openMessage) != nil && fresh(asType(m, *openMessage)) && len(b) >= 10 && asType(m, *openMessage).version == b[0] && asType(m, *openMessage).asn == be16(b, 1) && asType(m, *openMessage).holdTime == be16(b, 3) && asType(m, *openMessage).bgpID == be32(b, 5) && (forall k :: 0 <= k && k < len(asType(m, *openMessage).optionalParams) ==> isType(asType(m, *openMessage).optionalParams[k], *capabilityOptionalParam) && asType(asType(m, *openMessage).optionalParams[k], *capabilityOptionalParam) != nil)) && (err != nil ==> isType(err, *notificationError) && asType(err, *notificationError) != nil && asType(err, *notificationError).out && notifOf(err) != nil)
+//@   ensures [open] messageType == 1 && err == nil ==> isType(m, *openMessage) && asType(m, *openMessage) != nil && fresh(asType(m, *openMessage)) && len(b) >= 10
+//@   ensures [open_fields] messageType == 1 && err == nil ==> asType(m, *openMessage).version == b[0] && asType(m, *openMessage).asn == be16(b, 1) && asType(m, *openMessage).holdTime == be16(b, 3) && asType(m, *openMessage).bgpID == be32(b, 5)
+//@   ensures [open_params] messageType == 1 && err == nil ==> (forall k :: 0 <= k && k < len(asType(m, *openMessage).optionalParams) ==> isType(asType(m, *openMessage).optionalParams[k], *capabilityOptionalParam) && asType(asType(m, *openMessage).optionalParams[k], *capabilityOptionalParam) != nil)
+//@   ensures [open_error] messageType == 1 && err != nil ==> isType(err, *notificationError) && asType(err, *notificationError) != nil && asType(err, *notificationError).out && notifOf(err) != nil
 
 // ---- OPEN validation (C02) ----
 
